@@ -774,8 +774,14 @@ impl World {
     }
     pub fn set_err_kinds(&mut self, read: std::io::ErrorKind, write: std::io::ErrorKind) {
         let mut w = self.wire.borrow_mut();
-        w.read_err_kind = read;
-        w.write_err_kind = write;
+        w.transient_kind = read;
+        let retryable = |k: std::io::ErrorKind| matches!(k, std::io::ErrorKind::WouldBlock | std::io::ErrorKind::Interrupted);
+        if !retryable(read) {
+            w.read_err_kind = read;
+        }
+        if !retryable(write) {
+            w.write_err_kind = write;
+        }
     }
     pub fn read_error(&mut self) {
         let mut w = self.wire.borrow_mut();
